@@ -92,6 +92,10 @@ func c12Types(thorough bool) []c12Type {
 	add(symbols.NewUnionType(symbols.NewUnionType(n("/a"), ast.NumberBound), ast.StringBound))
 	add(symbols.NewUnionType(ast.StringBound, symbols.NewUnionType(ast.NumberBound, n("/a/b"))))
 	add(symbols.NewUnionType(symbols.NewUnionType(n("/a/b"), n("/b")), symbols.NewUnionType(ast.NumberBound, ast.Float64Bound)))
+	// tagged unions with an empty variant first and in the middle
+	add(symbols.NewTaggedUnionType(n("/kind"), n("/k2"), symbols.NewStructType(), n("/k1"), symbols.NewStructType(f, ast.NumberBound)))
+	add(symbols.NewTaggedUnionType(n("/kind"), n("/k1"), symbols.NewStructType(f, ast.NumberBound), n("/k2"), symbols.NewStructType(), n("/k3"), symbols.NewStructType(g, ast.StringBound)))
+	add(symbols.NewTaggedUnionType(n("/kind"), n("/k2"), symbols.NewStructType(), n("/k3"), symbols.NewStructType(), n("/k1"), symbols.NewStructType(f, ast.NumberBound)))
 	// only optional fields: the empty struct is a member
 	add(symbols.NewStructType(symbols.NewOpt(g, ast.NumberBound)))
 	add(symbols.NewStructType(symbols.NewOpt(f, ast.StringBound), symbols.NewOpt(g, ast.NumberBound)))
@@ -150,6 +154,8 @@ func c12Consts() []ast.Constant {
 	one, s := ast.Number(1), ast.String("s")
 	out = append(out, *ast.Struct(map[*ast.Constant]*ast.Constant{&kind: &k1, &f: &one}), *ast.Struct(map[*ast.Constant]*ast.Constant{&kind: &k2, &g: &s}),
 		*ast.Struct(map[*ast.Constant]*ast.Constant{&kind: &k2}), *ast.Struct(map[*ast.Constant]*ast.Constant{&kind: &k1, &g: &s}))
+	k3 := n("/k3")
+	out = append(out, *ast.Struct(map[*ast.Constant]*ast.Constant{&kind: &k3}), *ast.Struct(map[*ast.Constant]*ast.Constant{&kind: &k3, &g: &s}))
 	// second level over a few first-level values
 	ax := n("/a/x")
 	abz := n("/ab/z")
@@ -188,6 +194,46 @@ func c12(r *rt.Run) {
 			M[i][j] = T[i].h.HasType(v)
 		}
 	})
+	// membership in a tagged union is membership in one of its variants read as a struct type with a singleton tag —
+	// decided here variant by variant with the library's own struct membership and compared with its answer for the union
+	for i := range T {
+		tu, ok := T[i].expr.(ast.ApplyFn)
+		if !ok || tu.Function.Symbol != symbols.TaggedUnionType.Symbol || len(tu.Args) < 3 || len(tu.Args)%2 != 1 {
+			continue
+		}
+		var variants []symbols.TypeHandle
+		wellformed := true
+		for k := 1; k+1 < len(tu.Args); k += 2 {
+			st, ok := tu.Args[k+1].(ast.ApplyFn)
+			tag, ok2 := tu.Args[k].(ast.Constant)
+			if !ok || !ok2 {
+				wellformed = false
+				break
+			}
+			args := append([]ast.BaseTerm{tu.Args[0], symbols.NewSingletonType(tag)}, st.Args...)
+			h, err := symbols.NewSetHandle(symbols.NewStructType(args...))
+			if err != nil {
+				wellformed = false
+				break
+			}
+			variants = append(variants, h)
+		}
+		if !wellformed {
+			continue
+		}
+		for j, v := range V {
+			want := false
+			for _, h := range variants {
+				if h.HasType(v) {
+					want = true
+				}
+			}
+			r.Add("evaluations", 1)
+			if M[i][j] != want {
+				r.Violate("tagged-union-membership", fmt.Sprintf("HasType(%s, %v) = %v, but membership in its variants (struct types with a singleton tag) gives %v", T[i].text, v, M[i][j], want), map[string]any{"type": T[i].text, "constant": v.String()})
+			}
+		}
+	}
 	inhabited := 0
 	for i := range T {
 		for j := range V {
@@ -352,6 +398,10 @@ func explain(t ast.BaseTerm, v ast.Constant) string {
 		return "-explained-by-map-key-variance+struct-width"
 	case relaxedHasType(t, v, false, false, true):
 		return "-explained-by-tagged-union-name-tags"
+	case relaxedHasType(t, v, false, true, true):
+		// both recorded inconsistencies at once: the tagged union is expanded with /name tags (F60) and the
+		// resulting struct types conform by width (F7c)
+		return "-explained-by-struct-width+tagged-union-name-tags"
 	}
 	return ""
 }
